@@ -798,9 +798,12 @@ def finder_region_one(ctx, c):
                 comps1, isles1 = base.finder_sources(path, flood, seed, mask=mask_arg)
                 ncomp = len(comps1)
                 got_set = set(isles1.values())
-                if got_set != want_set:
+                # the property's words: "the components of those islands of the UNRESTRICTED RUN that have …": an island of
+                # find_islands that yields no source in the unrestricted run (summit rules) is not expected here either
+                exp_set = want_set & set(isles0.values())
+                if got_set != exp_set:
                     bad = (f"islands of the restricted run {sorted(got_set)} != islands of the unrestricted run with an own "
-                           f"pixel inside the region {sorted(want_set)}")
+                           f"pixel inside the region {sorted(exp_set)}")
                 else:
                     got = sorted(base.comp_tuple(s) + (isles1[int(s.island)],) for s in comps1 if int(s.island) in isles1)
                     if len(got) != len(comps1):
@@ -821,7 +824,7 @@ def finder_region_one(ctx, c):
                 # same region, object never queried while it was built: if that one is right, the answer depends on history
                 try:
                     c2, i2 = base.finder_sources(path, flood, seed, mask=make_region(c['region'], False))
-                    if set(i2.values()) == want_set:
+                    if set(i2.values()) == (want_set & set(isles0.values())):
                         sig['what'] = 'history-dependence'
                         bad += ("; a Region object built by the same edits but never queried in between gives the right answer "
                                 "(the result depends on earlier sky_within queries: history-dependence)")
